@@ -19,7 +19,13 @@ def make_obj(cls, attrs):
             # shortcuts must not treat it as "no parent"
             ns["__bool__"] = lambda self: False
             ns["__len__"] = lambda self: 0
-        c = type(cls, (), ns)
+        bases = ()
+        if cls.startswith("Base"):
+            # an instance of a BaseException subclass that is NOT an Exception (asyncio.CancelledError, GeneratorExit ... handed
+            # back as a VALUE): to the engine it is an object like any other
+            bases = (BaseException,)
+            ns["__str__"] = ns["__repr__"]
+        c = type(cls, bases, ns)
         _classes[cls] = c
     o = c()
     for k, v in attrs:
@@ -61,7 +67,7 @@ def enc(v, undef=None, nodes=None):
     if isinstance(v, list): return [enc(x, undef, nodes) for x in v]
     if isinstance(v, tuple): return {"t": [enc(x, undef, nodes) for x in v]}
     if isinstance(v, dict): return {"d": [[str(k), enc(x, undef, nodes)] for k, x in v.items()]}
-    if isinstance(v, BaseException):
+    if isinstance(v, BaseException) and _classes.get(type(v).__name__) is not type(v):
         ext = getattr(v, "extensions", None) or {}
         from tartiflette.types.exceptions.tartiflette import TartifletteError
         return {"x": isinstance(v, TartifletteError), "m": str(getattr(v, "message", None) or v), "e": [[k, enc(x)] for k, x in ext.items()]}
